@@ -15,7 +15,6 @@ only a preceding normal component, never the root or the prefix."
 -/
 import TypedPathVerif.Lemmas.WinVerbatim
 import TypedPathVerif.Props.C11b
-import TypedPathVerif.Props.C04b
 
 namespace TP.C08c
 
@@ -270,75 +269,6 @@ theorem fold_keeps_prefix_root (n : Bool) (p : PrefixComp) (cs L : List Comp) (h
     | rooted items hi =>
       obtain ⟨it, h⟩ := key cs _ (.rooted items hi) hcs [.pfx p, .root] items rfl (by simp [Comp.isNormal]) hi (by simp)
       rw [h]; rfl
-
-/-! ### C04 on verbatim bases -/
-
-/-- when the incoming components never climb, the scan only touches what it added itself -/
-theorem fold_neverClimbs : ∀ (cs : List Comp) (ns : List Bytes) (L : List Comp),
-    C04.neverClimbs ns.length cs → (∀ c ∈ cs, c = .cur ∨ c = .parent ∨ ∃ s, c = .normal s) →
-    verbatimFold (L ++ ns.map Comp.normal) cs = L ++ (C11b.nameFold ns cs).map Comp.normal := by
-  intro cs
-  induction cs with
-  | nil => intro ns L _ _; rfl
-  | cons c cs ih =>
-    intro ns L hnc hcs
-    have hrest : ∀ x ∈ cs, x = .cur ∨ x = .parent ∨ ∃ s, x = .normal s := fun x hx => hcs x (by simp [hx])
-    rcases hcs c (by simp) with hc | hc | ⟨s, hc⟩
-    · subst hc
-      simp only [verbatimFold, C11b.nameFold]
-      exact ih ns L hnc hrest
-    · subst hc
-      obtain ⟨hpos, hnc'⟩ := hnc
-      have hne : ns ≠ [] := by intro h0; rw [h0] at hpos; simp at hpos
-      obtain ⟨s, hs⟩ : ∃ s, ns.getLast? = some s := by
-        cases hg : ns.getLast? with
-        | none => exact absurd (List.getLast?_eq_none_iff.mp hg) hne
-        | some s => exact ⟨s, rfl⟩
-      have hlast : (L ++ ns.map Comp.normal).getLast? = some (.normal s) := by
-        rw [Win.getLast?_append_ne _ _ (by simpa using hne), List.getLast?_map, hs]; rfl
-      have hdl : (L ++ ns.map Comp.normal).dropLast = L ++ ns.dropLast.map Comp.normal := by
-        rw [List.dropLast_append_of_ne_nil (by simpa using hne), List.map_dropLast]
-      simp only [verbatimFold, hlast, hdl, C11b.nameFold]
-      refine ih ns.dropLast L ?_ hrest
-      rw [List.length_dropLast]; exact hnc'
-    · subst hc
-      simp only [verbatimFold, C11b.nameFold]
-      have : L ++ ns.map Comp.normal ++ [Comp.normal s] = L ++ (ns ++ [s]).map Comp.normal := by simp
-      rw [this]
-      refine ih (ns ++ [s]) L ?_ hrest
-      have hl : (ns ++ [s]).length = ns.length + 1 := by simp
-      rw [hl]; exact hnc
-
-/-- **Checked join keeps a verbatim-prefixed base.**  If `push_checked` succeeds on a base with a
-complete verbatim prefix (followed by nothing or a separator), the result's components are the
-base's followed by the names that survive the argument's own `..` cancellations — root after
-the prefix written out — and the result keeps the same prefix. -/
-theorem win_checked_keeps_base_verbatim (a q r rest : Bytes) (p : PrefixComp)
-    (hpa : parsePrefixComp a = some (p, rest)) (hc : Complete p.kind) (hv : isVerbatimKind p.kind = true)
-    (hrest : HeadOK (wsep (normOf p.raw)) rest) (hqne : q ≠ [])
-    (h : pushChecked .windows a q = .ok r) :
-    comps .windows r =
-      withRoot (comps .windows a ++ (C11b.nameFold [] (comps .windows q)).map Comp.normal) ∧
-    (∀ s ∈ C11b.nameFold [] (comps .windows q), Comp.normal s ∈ comps .windows q) ∧
-    ∃ rest', parsePrefixComp r = some (p, rest') := by
-  obtain ⟨hacc, hr⟩ := (C04.checked_accepts_iff .windows a q r).mp h
-  obtain ⟨hq, hrel⟩ := C04b.accepted_prefix_free q hacc
-  obtain ⟨h1, _, rest', _, h3⟩ := win_push_comps_verbatim a q rest p hpa hc hv hrest hqne hq hrel
-  rw [hr]
-  have hinc := arg_incoming (normOf p.raw) q hq hrel
-  have hform : ∀ c ∈ comps .windows q, c = .cur ∨ c = .parent ∨ ∃ s, c = .normal s := by
-    intro c hc'
-    rcases hinc c hc' with h' | h' | ⟨s, h', _⟩
-    · exact Or.inl h'
-    · exact Or.inr (Or.inl h')
-    · exact Or.inr (Or.inr ⟨s, h'⟩)
-  have hfold := fold_neverClimbs (comps .windows q) [] (comps .windows a) (by simpa using hacc.2) hform
-  simp only [List.map_nil, List.append_nil] at hfold
-  refine ⟨by rw [h1, hfold], ?_, rest', h3⟩
-  intro s hs
-  rcases C11b.nameFold_subset _ [] s hs with h' | h'
-  · simp at h'
-  · exact h'
 
 /-! ### non-vacuity -/
 
